@@ -340,7 +340,7 @@ func vnRedundantSteps(h []vnOp) []int {
 	dereg := map[int]bool{}
 	var out []int
 	for i, op := range h[:len(h)-1] {
-		if op.K == "D" || op.K == "W" {
+		if op.K == "D" || op.K == "W" || op.K == "C" {
 			if dereg[op.X] {
 				out = append(out, i)
 			}
